@@ -37,7 +37,7 @@ func (c16) Floors(tier string) map[string]int {
 }
 
 var c16limits = []int{64, 256, 1024, 4096, 65536}
-var c16positions = []string{"first", "after1", "coalesced", "aftermany", "afterL", "unreadnl", "primed", "primed-trace", "after1-trace"}
+var c16positions = []string{"first", "after1", "coalesced", "aftermany", "afterL", "unreadnl", "primed", "primed-trace", "after1-trace", "afterinvalid"}
 var c16frags = []string{"1", "512", "all", "rand"}
 
 func (c16) Plan(tier string, seed uint64) []core.Case {
@@ -146,6 +146,7 @@ func (p c16) one(r *core.Result, L int, cls string, framed int, pos, frag string
 	small := func(i int) []byte { return append(c16msg(fmt.Sprintf("p%d", i), c16minValue+i%3), '\n') }
 	var pre [][]byte
 	unreadNL := false
+	invalidPre := false
 	switch pos {
 	case "after1":
 		pre = append(pre, small(0))
@@ -171,6 +172,18 @@ func (p c16) one(r *core.Result, L int, cls string, framed int, pos, frag string
 			pre = append(pre, append(c16msg("pL", eff-2), '\n'))
 		}
 		pre = append(pre, small(1))
+	case "afterinvalid":
+		// well-formed JSON objects that are not valid envelopes (a message without its type): each is rejected, and
+		// together they exceed the limit - the budget belongs to one envelope, accepted or not
+		sz := eff / 3
+		if sz < c16minValue {
+			sz = c16minValue
+		}
+		for i := 0; i < 5; i++ {
+			b := []byte(fmt.Sprintf(`{"id":"inv%d","content":"%s"}`, i, strings.Repeat("q", sz-28)))
+			pre = append(pre, append(b, '\n'))
+		}
+		invalidPre = true
 	case "unreadnl":
 		// predecessor value is written without its newline; the newline arrives together with the target
 		pre = append(pre, c16msg("pn", c16minValue+1))
@@ -245,6 +258,14 @@ func (p c16) one(r *core.Result, L int, cls string, framed int, pos, frag string
 	for i := range pre {
 		env, err, consumed := recvOne()
 		check("predecessor", consumed)
+		if invalidPre {
+			if err == nil {
+				r.Violate("C16/invalid-accepted", fmt.Sprintf("limit %d: a message without its type was accepted: %v", eff, env))
+				return
+			}
+			r.Count("invalid_predecessors_rejected", 1)
+			continue
+		}
 		if err != nil {
 			r.Violate("C16/rejected-within-limit/predecessor", fmt.Sprintf("limit %d: predecessor #%d of %d bytes (position %s, fragmentation %s) was rejected: %v", eff, i, len(pre[i]), pos, frag, err))
 			return
